@@ -722,8 +722,8 @@ class LeastSquare:
         else:
             nodes0to1 = NodeSample.chebyshev(nptsinteg)
             integrator = IntegratorArray.chebyshev(nptsinteg)
-        nodes0to1 = np.array(nodes0to1)
-        integrator = np.array(integrator)
+        nodes0to1 = np.array(nodes0to1, dtype=numbtype)
+        integrator = np.array(integrator, dtype=numbtype)
 
         FF = np.zeros((oldnpts, oldnpts), dtype=numbtype)  # F*F
         GF = np.zeros((newnpts, oldnpts), dtype=numbtype)  # F*G
